@@ -249,7 +249,7 @@ Lemma job_cb_linv : forall s j, LInv s -> LInv (fst (job_cb j s)).
 Proof.
   intros s j HL. unfold job_cb.
   destruct (find_job j (jobs s)) as [jb|] eqn:Hf; [|assumption].
-  destruct (j_phase jb) as [|ok]; [assumption|]. cbn [fst].
+  destruct (j_phase jb) as [| |ok]; [assumption|assumption|]. cbn [fst].
   destruct HL as [A B C D].
   pose proof (find_drop_po _ _ _ D Hf) as Hlen.
   set (s0 := with_jobs (drop_job j (jobs s)) s).
@@ -286,19 +286,22 @@ Proof.
     + now apply purge_linv.
 Qed.
 
-Lemma finish_io_linv : forall s j ok, LInv s -> LInv (finish_io j ok s).
+Lemma to_phase_linv : forall s j p, LInv s -> LInv (to_phase j p s).
 Proof.
-  intros s j ok [A B C D]. unfold finish_io. constructor; unfold po_pending in *; unf; auto.
+  intros s j p [A B C D]. unfold to_phase. constructor; unfold po_pending in *; unf; auto.
   - rewrite A. f_equal. unfold update_job. clear. induction (jobs s) as [|x t IH]; cbn [map filter]; [reflexivity|].
-    assert (H : is_po (if N.eqb (j_id x) j then set_phase (CbPending ok) x else x) = is_po x) by (destruct (N.eqb (j_id x) j); reflexivity).
+    assert (H : is_po (if N.eqb (j_id x) j then set_phase p x else x) = is_po x) by (destruct (N.eqb (j_id x) j); reflexivity).
     rewrite H. destruct (is_po x); cbn [List.length]; now rewrite IH.
   - intros x Hin. unfold update_job in Hin. apply in_map_iff in Hin. destruct Hin as [y [<- Hin]].
     specialize (C y Hin). destruct (N.eqb (j_id y) j); cbn; assumption.
   - unfold update_job. rewrite map_map.
-    assert (H : map (fun x => j_id (if N.eqb (j_id x) j then set_phase (CbPending ok) x else x)) (jobs s) = map j_id (jobs s)).
+    assert (H : map (fun x => j_id (if N.eqb (j_id x) j then set_phase p x else x)) (jobs s) = map j_id (jobs s)).
     { apply map_ext. intro x. destruct (N.eqb (j_id x) j); reflexivity. }
     now rewrite H.
 Qed.
+
+Lemma finish_io_linv : forall s j ok, LInv s -> LInv (finish_io j ok s).
+Proof. intros. now apply to_phase_linv. Qed.
 
 Lemma maybe_delayed_purge_linv : forall s k, LInv s -> LInv (maybe_delayed_purge k s).
 Proof.
@@ -327,14 +330,17 @@ Proof.
       apply submit_linv_in. eapply linv_same; eauto.
   - cbn [fst]. now apply purge_linv.
   - unfold job_io. destruct (find_job j (jobs s)) as [jb|]; [|assumption].
-    destruct (j_phase jb); [|assumption]. cbn [fst]. destruct (j_kind jb).
-    + unfold io_page_out. destruct (lookup (j_key jb) (segs s)); [destruct fault|];
-        apply finish_io_linv; try assumption; eapply linv_same; eauto.
+    destruct (j_phase jb); [|assumption|assumption]. cbn [fst]. destruct (j_kind jb).
+    + unfold io_page_out, finish_io. destruct (lookup (j_key jb) (segs s)); [destruct fault|];
+        apply to_phase_linv; try assumption; eapply linv_same; eauto.
     + unfold io_page_in. destruct (j_size jb =? 0)%N; [now apply finish_io_linv|].
       destruct (lookup (j_key jb) (segs s)); [now apply finish_io_linv|].
       destruct fault; [apply finish_io_linv; eapply linv_same; eauto|].
       destruct (lookup (j_key jb) (files s)); [|apply finish_io_linv; eapply linv_same; eauto].
       destruct (_ <=? _)%N; apply finish_io_linv; eapply linv_same; eauto.
+  - unfold job_unlink. destruct (find_job j (jobs s)) as [jb|]; [|assumption].
+    destruct (j_kind jb), (j_phase jb); try assumption. cbn [fst].
+    destruct (lookup (j_key jb) (segs s)); apply finish_io_linv; try assumption; eapply linv_same; eauto.
   - now apply job_cb_linv.
   - assumption.
   - assumption.
